@@ -12,6 +12,18 @@ CHECKS = {
    technique=TECH + "sequential runs against an executable reference model, flush workers interleaved by the seeded scheduler",
    text="Every call of seeded single-client workloads (full API incl. flush, settle, clean reopen, clock moves) is compared with a sequential last-writer-wins reference model: result, post-state of the key (timestamp, expiry, length via the read-only snapshot hook), len()/memory_usage(), periodic full read-back and range query, independent decode of the durable image at every acknowledged flush. Configurations are swarm-sampled over {memory, persistent} x {cache} x {ttl} x {v1,v2,v3}; the tier a value is read from is decided by the scheduler's interleaving of the real flush workers. Exploration level: a clean batch is evidence over the sampled seeds.",
    note="Trusts: the reference model (sim/src/model.rs), the independent codec (sim/src/codec.rs), serde_json/json-patch as JSON oracle; preemption only at seams; fault-free device (faults are C09's business)."),
+ "C02": dict(engine="crash", level="fault_enumeration", ref="DESIGN.md 5 C02",
+   technique=TECH + "crash at device-call boundaries after an acknowledgement, enumerated loss/reorder/tear families of the un-fsynced writes, recovery in a fresh handle against the per-key history",
+   text="Workloads of 1-3 single-writer clients with flushes as acknowledgement points run under the seeded scheduler on a simulated device that distinguishes page cache from durable image. Power is cut at sampled (quick) or every (thorough, 1 in 3 workloads) device-call boundary after the first acknowledgement; for each instant a family of images is built from the writes not covered by a completed fsync (none, all, every subset when <= 3-5 writes, prefixes, single drops, sector- or block-granular tearing of each write, random subsets); every image is recovered in a fresh handle after a simulated process restart and each key must carry a state of its own history not older than the last state covered by the last completed flush. Fault enumeration over sampled workloads.",
+   note="Acknowledgement = flush() returned Ok; coverage = state changes whose call returned before the flush was invoked (global event numbers). Device model: 512-byte atomic sectors, honest fsync."),
+ "C03": dict(engine="crash", level="fault_enumeration", ref="DESIGN.md 5 C03",
+   technique=TECH + "crash at any device-call boundary incl. first initialisation, forged record/marker images inside values, full authenticity oracle and probe workload after recovery",
+   text="Same engine as C02 with crash instants over the whole trace (including the very first metadata initialisation and retirements), values whose continuation blocks are byte-exact record heads and retirement markers for the sectors they are predicted to land on, 512-byte and 4096-byte tearing modes; reopen must succeed, every exposed key must carry one complete generation (value, timestamp, expiry) of its own history, no foreign key, len() = exposed keys, partition invariant holds, and the store must accept a probe workload whose flush makes the durable image decode (independent codec) to exactly its contents.",
+   note="Same device model as C02; ghost keys are detected because no workload ever writes them."),
+ "C04": dict(engine="crash", level="fault_enumeration", ref="DESIGN.md 5 C04",
+   technique=TECH + "nested crash injection inside recovery's own repair writes, repeated reopen, write-trace vs live-extent intersection",
+   text="Crash images of the C03 engine are recovered (R1), reopened again k times without writing (contents must equal R1 up to expiry), recovered again with a power cut at sampled/every device call of recovery's own writes with loss/tear families (nested, depth <= 2) - contents must equal R1 - and the blocks recovery writes are intersected with the extents of R1's live records.",
+   note="Nested depth 2; clock not frozen, so keys whose expiry passes between recoveries may disappear (accounted for)."),
  "C05": dict(engine="seq", level="exploration", ref="DESIGN.md 5 C05",
    technique=TECH + "partition invariant monitor at quiescent points of simulated runs",
    text="At every acknowledged flush with empty buffers and retirement queue the data area is checked to be exactly partitioned into live extents and maximal free runs, the allocator's own totals are recomputed, the persisted metadata counters are compared with the independently decoded durable image, and an OutOfSpace flush must be justified by the buffered extents not fitting the largest free run.",
